@@ -11,5 +11,6 @@ CONSTANTS
   MaxClose = 0
   MaxDeliveryFail = 0
   Unbuffered = TRUE
+  Script <- NoScript
   RecordH = "off"
 PROPERTIES NoLostWakeupLive NoDeadlockWhileDeliverable
